@@ -59,7 +59,7 @@ class C04(Prop):
         return headers(parts)
 
     def oracle(self, tier, rng, suspicious):
-        results = R.run_cases(self.cases(tier, rng))
+        results = self.l1_results or R.run_cases(self.cases(tier, rng))
         failures, validated, samples, skipped = [], 0, [], 0
         for r in results:
             m = r.meta
